@@ -2,7 +2,7 @@
 TLC enumerates every behaviour of specs/Groth16Protocol.tla (shape x edit sequence), checks the
 transcribed verifier step list against the property on the model, and every behaviour is then
 replayed on the real Setup/Prove/Verify of every curve."""
-from protocol_common import run_protocol
+from protocol_common import run_protocol, key_checks, CURVES
 
 RULE = ('behaviour = circuit shape x sequence of edits to a genuine (proof, vk, public witness); '
         'enumerated by TLC from %s.tla; non-trivial = at least one non-neutral edit; '
@@ -18,3 +18,5 @@ def run(ctx):
     ctx.rule = RULE % 'Groth16Protocol'
     ctx.assumptions += ASSUME
     run_protocol(ctx, 'Groth16Protocol', 'g16replay', 'groth16')
+    ctx.tlc('Groth16SetupMC', 'Groth16SetupMC.cfg', workers=8)
+    key_checks(ctx, 'groth16', CURVES if ctx.tier != 'quick' else ['bn254', CURVES[1 + ctx.seed % 6]])
